@@ -267,7 +267,7 @@ def group_world(prop, tier, seed, idx):
     K = K_BUCKET[prop]
     rng = rng_for(seed, prop, tier, "group", idx)
     base = (idx // K) * K
-    pool = [i for i in range(base, base + K) if not is_group_idx(prop, tier, i)]
+    pool = [i for i in range(base, base + K) if not is_group_idx(prop, tier, i) and not is_twin_idx(prop, tier, i)]
     n = rng.choice([2, 2, 2, 3])
     picks = rng.sample(pool, n)
     members = []
@@ -296,7 +296,58 @@ def group_world(prop, tier, seed, idx):
     }
 
 
+# C15 only: one run index in 102 (every 17th bucket, so the slots rotate over the workers) is a
+# sequence-versus-alone TWIN on a real flowjax model (sim/twin.py)
+TWIN_PERIOD, TWIN_SLOT = 102, 4
+
+
+def is_twin_idx(prop, tier, idx):
+    return prop == "C15" and idx % TWIN_PERIOD == TWIN_SLOT
+
+
+def twin_world(tier, seed, idx):
+    import copy
+
+    from sim import worlds_b
+
+    rng = rng_for(seed, "C15", tier, "twin", idx)
+    src = rng.choice(["C18", "C18", "C18", "C12", "C09", "C11"])
+    j = rng.randrange(100000)
+    inner = None
+    for _ in range(200):
+        cand = worlds_b.world_for(src, "quick", seed, j)
+        if cand["loop"] == "data" and cand.get("max_epochs", 0) >= 1 and not cand.get("use_defaults") and cand.get("loss") != "contrastive":
+            inner = cand
+            break
+        j += 1
+    if inner is None:  # cannot happen for these generators; keep the slot an ordinary run
+        return None
+    inner["max_epochs"] = min(inner["max_epochs"], 2)
+    if src == "C18" and not inner.get("init_perturb") and inner["model"]["kind"] != "named" and rng.random() < 0.7:
+        inner["init_perturb"] = {"seed": rng.randrange(2**31), "scale": rng.choice([0.5, 2.0])}  # away from the identity initialisation
+    before = []
+    sib = worlds_b.sibling_config(inner["model"], rng)
+    if sib is not None:
+        w = copy.deepcopy(inner)
+        for k in ("prelude", "prelude_use", "prelude_train", "history"):
+            w.pop(k, None)
+        w["model"] = worlds_b._fill_values(sib, rng)
+        w["max_epochs"] = 1
+        w["faults"] = []
+        before.append(w)
+    else:
+        other = worlds_b.world_for(src, "quick", seed, j + 1 + rng.randrange(50))
+        other["max_epochs"] = min(other.get("max_epochs", 1), 1)
+        before.append(other)
+    return {"engine": "A", "prop": "C15", "idx": idx, "kind": "twin", "loop": "twin", "inner": inner, "before": before}
+
+
 def world_for(prop, tier, seed, idx):
+    if is_twin_idx(prop, tier, idx):
+        w = twin_world(tier, seed, idx)
+        if w is not None:
+            return w
+        return single_world_for(prop, tier, seed, idx)
     if is_group_idx(prop, tier, idx):
         return group_world(prop, tier, seed, idx)
     return single_world_for(prop, tier, seed, idx)
